@@ -17,7 +17,7 @@ open(sys.argv[2],'w').write(s)
 PY
 rc=$?
 if [ $rc -ne 0 ]; then rm -rf $tmp; exit $rc; fi
-cp /verif/known_findings.json $tmp/; /verif/bin/lp2pcheck -verif $tmp -overlay "$file=$tmp/f.go" $prop | grep -v "^  C\|^VIOLATION" | cut -c1-400
+cp /verif/known_findings.json $tmp/; /verif/bin/lp2pcheck -tier ${4:-quick} -verif $tmp -overlay "$file=$tmp/f.go" $prop | grep -v "^  C\|^VIOLATION" | cut -c1-400
 rc=${PIPESTATUS[0]}
 rm -rf $tmp
 echo "mut-exit=$rc"
